@@ -222,6 +222,23 @@ impl JsError {
         }
     }
 
+    /// Name the file a syntax error was found in, unless it already names one;
+    /// every other error is returned unchanged.
+    pub fn in_file(self, path: &str) -> Self {
+        match self {
+            JsError::SyntaxError { message, location } if location.file.is_none() => {
+                JsError::SyntaxError {
+                    message,
+                    location: SourceLocation {
+                        file: Some(path.to_string()),
+                        ..location
+                    },
+                }
+            }
+            other => other,
+        }
+    }
+
     /// Give a syntax error that has no position yet (line 0) the position of `span`;
     /// every other error is returned unchanged.
     pub fn located_at(self, span: crate::lexer::Span) -> Self {
